@@ -106,7 +106,12 @@ def snap_hash(version, snap):
     return h.hexdigest()
 
 
-def run_build(root, mode, version, kill=None, tear=None, fail=None, record=True, threads="1"):
+# listing orders explored at the crash points of builds that delete files: by name, and by every priority order of the
+# three kinds of component files (then by name)
+DIR_ORDERS = ("asc", "desc", "ext:rs,digest,rlib", "ext:rs,rlib,digest", "ext:digest,rlib,rs", "ext:rlib,digest,rs", "ext:rlib,rs,digest")
+
+
+def run_build(root, mode, version, kill=None, tear=None, fail=None, record=True, threads="1", dirorder="asc"):
     """One real build of `version` in `root`. Returns (exit code or None if killed, mutation log)."""
     with open(os.path.join(root, "src", "t.eql"), "w") as f:
         f.write(VERSIONS[version])
@@ -118,6 +123,8 @@ def run_build(root, mode, version, kill=None, tear=None, fail=None, record=True,
     env = common.env_offline({
         "LD_PRELOAD": FSINJECT, "FSINJECT_ROOTS": os.path.join(root, "out") + ":" + os.path.join(root, "comp"),
         "FSINJECT_LOG": log, "FSINJECT_STATE": state, "RAYON_NUM_THREADS": threads,
+        # the order of directory listings is unspecified; the injector fixes it (and the search varies it at crash points)
+        "FSINJECT_DIRORDER": dirorder,
     })
     if kill:
         env["FSINJECT_KILL"] = str(kill)
@@ -196,6 +203,7 @@ class Explorer:
         kw = {}
         if kind == "kill":
             kw["kill"] = event[1]
+            kw["dirorder"] = event[2] if len(event) > 2 else "asc"
         elif kind == "tear":
             kw["tear"] = event[1]
         elif kind == "rustc-fail":
@@ -236,8 +244,11 @@ class Explorer:
         materialise(root, snap)
         rc, muts, _ = run_build(root, self.mode, version)
         shutil.rmtree(root, ignore_errors=True)
+        # a build that removes files walks a directory listing: its crash points are explored under both listing orders
+        orders = DIR_ORDERS if any(m[0] == "unlink" and m[1].startswith("comp/") for m in muts) else DIR_ORDERS[:1]
         for k in range(1, len(muts) + 1):
-            evs.append(("kill", k))
+            for o in orders:
+                evs.append(("kill", k, o))
             if muts[k - 1][0] == "write" and muts[k - 1][2] >= 2:
                 evs.append(("tear", k))
         if self.mode == "component" and rc == 0:
@@ -321,7 +332,7 @@ def event_text(ev):
     if ev[0] == "build":
         return "build"
     if ev[0] == "kill":
-        return f"build killed before its mutation #{ev[1]}"
+        return f"build killed before its mutation #{ev[1]}" + (f" (directory listings in order {ev[2]})" if len(ev) > 2 and ev[2] != "asc" else "")
     if ev[0] == "tear":
         return f"build killed in the middle of write #{ev[1]}"
     return f"build with rustc failing for {ev[1]}"
@@ -447,7 +458,7 @@ def replay(pid, path):
         elif text == "build":
             ev = ("build",)
         elif "before its mutation" in text:
-            ev = ("kill", int(text.split("#")[1]))
+            ev = ("kill", int(re.search(r"#(\d+)", text).group(1)), (re.search(r"listings in order ([\w:,]+)\)", text).group(1) if "listings in order" in text else "asc"))
         elif "middle of write" in text:
             ev = ("tear", int(text.split("#")[1]))
         else:
